@@ -43,6 +43,8 @@ type Op struct {
 	D      int    `json:"d,omitempty"`      // sleep: milliseconds of virtual time
 	Raw    []byte `json:"raw,omitempty"`    // raw bytes
 	Cut    int    `json:"cut,omitempty"`    // raw: close after this many bytes (0 = all)
+	Target int    `json:"target,omitempty"` // kill / resumeother: client index
+	How    string `json:"how,omitempty"`    // kill: fin or rst
 }
 
 // Client is a scripted raw client (possibly several connections in sequence).
